@@ -259,6 +259,12 @@ class AEval:
                     args = [self.ev(a, env, depth) for a in e["args"]]
                     return self.call_fn(f.get("resolved") or f["path"], args, depth + 1)
             raise Unknown("call of " + str(f.get("path")))
+        if k == "mcall" and (e.get("path") or "") in ("core::option::Option::<T>::is_some", "core::option::Option::<T>::is_none"):
+            v = self.ev(e["recv"], env, depth)
+            if v[0] == "enum" and v[1].startswith("core::option::Option::"):
+                some = v[1].endswith("Some")
+                return ("bool", some if e["path"].endswith("is_some") else not some)
+            raise Unknown("is_some/is_none on arbitrary value")
         if k == "mcall":
             target = e.get("resolved") or e.get("path")
             is_local = e.get("resolved_local") if e.get("resolved") else e.get("local")
